@@ -246,6 +246,15 @@ func (r *Run) Violation(sig, what string, detail any) bool {
 	return false
 }
 
+// PrintKnown prints the KNOWN-FINDING lines collected so far (for helpers that do not call Finish).
+func (r *Run) PrintKnown() {
+	r.mu.Lock()
+	defer r.mu.Unlock()
+	for s, n := range r.knownSeen {
+		fmt.Printf("KNOWN-FINDING: property=%s sig=%s occurrences=%d :: %s\n", r.Prop, s, n, r.known[s])
+	}
+}
+
 // NumViolations returns the number of unlisted violation signatures so far.
 func (r *Run) NumViolations() int {
 	r.mu.Lock()
@@ -314,10 +323,12 @@ func (r *Run) Finish(rule string, assumptions []string, extra map[string]any) in
 		"wall_s":      float64(int(wall*100)) / 100,
 		"violations":  len(r.unknownSigs),
 	}
-	dir := filepath.Join(Root(), "evidence")
-	_ = os.MkdirAll(dir, 0o755)
-	b, _ := json.MarshalIndent(ev, "", " ")
-	_ = os.WriteFile(filepath.Join(dir, r.Prop+".json"), append(b, '\n'), 0o644)
+	if !r.NoEvidence {
+		dir := filepath.Join(Root(), "evidence")
+		_ = os.MkdirAll(dir, 0o755)
+		b, _ := json.MarshalIndent(ev, "", " ")
+		_ = os.WriteFile(filepath.Join(dir, r.Prop+".json"), append(b, '\n'), 0o644)
+	}
 
 	fmt.Printf("%s %s seed=%d: evaluations=%d distinct_nontrivial=%d violations=%d known=%d inconclusive=%d wall=%.1fs\n",
 		r.Prop, r.Tier, r.Seed, r.evaluations, len(r.distinct), len(r.unknownSigs), len(r.knownSeen), len(r.inconclusive), wall)
